@@ -1755,6 +1755,7 @@ int tls_decrypt_recv(TLS_CONNECT *conn)
 	if (tls_record_decrypt(hmac_ctx, dec_key, seq_num,
 		record, recordlen,
 		conn->databuf, &conn->datalen) != 1) {
+		conn->datalen = 0;
 		error_print();
 		return -1;
 	}
